@@ -7,7 +7,7 @@
                        are within the range of the DSDL element type.
    db_wok db : what pydsdl guarantees of every type database (a union has options, signed widths <= 64). *)
 From Coq Require Import List NArith ZArith Bool.
-From Verif Require Import PyObj Gen_PyObj PyObjThm PyObjThmRt.
+From Verif Require Import PyObj Gen_PyObj Gen_Pin_c18support PyObjThm PyObjThmRt.
 Import ListNotations.
 Open Scope Z_scope.
 
@@ -151,6 +151,11 @@ Example C18_roundtrip_nonvacuous :
   /\ tb db o = Some (PDict [(1%nat, PStr [104%N; 105%N])])
   /\ ufb tmpl_gen pick_width_gen true db 3 (default_obj tmpl_gen pick_width_gen true db 0) (PDict [(1%nat, PStr [104%N; 105%N])]) = (o, None).
 Proof. vm_compute. repeat split; reflexivity. Qed.
+
+(* the functions of nunavut_support.j2 that `tb`, `ufb` and the class lookups of Gen/PyObj.v model by hand (to_builtin,
+   _to_builtin_impl, update_from_builtin, get_class, get_model, get_attribute, set_attribute) still have the pinned shape *)
+Example C18_support_shape_pinned : pin_c18support_ok = true.
+Proof. reflexivity. Qed.
 
 (* non-vacuity: the hypotheses are satisfiable by a database with a union, nested composites and arrays, and the
    refutation witness itself is a well-formed database on which only the element clause fails *)
